@@ -1106,3 +1106,301 @@ Proof.
   - intros c g arg. rewrite (getter_refines TI pitems TI_refines). rewrite paragraph_children_items; [reflexivity|].
     apply nth_error_In in Hn. unfold paragraphs, node_children_of_kind in Hn. apply filter_In in Hn. apply Hn.
 Qed.
+
+(* ================================================================== 6. hand-modelled functions *)
+(* ---- DEP-3: description / long_description (Description, else Subject) ---- *)
+Definition desc_raw (p : list (str * str)) : option str :=
+  match l_get p k_Description with Some v => Some v | None => l_get p k_Subject end.
+Definition both_desc (p : list (str * str)) : bool :=
+  match l_get p k_Description, l_get p k_Subject with Some _, Some _ => true | _, _ => false end.
+
+Lemma desc_neq : str_eqb k_Description k_Subject = false /\ str_eqb k_Subject k_Description = false.
+Proof. split; reflexivity. Qed.
+
+Lemma first_rest_replace old d : no_char LFc d = true ->
+  first_line_of (replace_first_line old d) = d /\
+  rest_after_first_line (replace_first_line old d) = match old with Some o => rest_after_first_line o | None => None end.
+Proof.
+  intros Hd. unfold replace_first_line, first_line_of, rest_after_first_line. destruct old as [o|].
+  - destruct (split_once_on LFc o) as [[a r]|].
+    + change (d ++ l_lf ++ r) with (d ++ LFc :: r). rewrite (split_once_on_first LFc d r Hd). split; reflexivity.
+    + rewrite (split_once_on_none LFc d Hd). split; reflexivity.
+  - rewrite (split_once_on_none LFc d Hd). split; reflexivity.
+Qed.
+
+Lemma decode_first_line c s : decode c CFirstLine (Some s) = Ok (VSome (VStr (first_line_of s))).
+Proof.
+  cbn [decode]. do 3 f_equal. unfold first_line_of. pose proof (split_once_on_spec LFc s) as H.
+  destruct (split_once_on LFc s) as [[a b]|].
+  - destruct H as [-> Ha]. rewrite split_on_app_nochar by exact Ha. cbn [split_on]. rewrite N.eqb_refl, app_nil_r. reflexivity.
+  - rewrite (split_on_single LFc s H). reflexivity.
+Qed.
+Lemma decode_rest_lines c s : decode c CRestLines (Some s) =
+  Ok (VSome (VStr (match rest_after_first_line s with Some r => r | None => [] end))).
+Proof. cbn [decode]. unfold rest_after_first_line. destruct (split_once_on LFc s) as [[a b]|]; reflexivity. Qed.
+
+(* set_description, then description / long_description *)
+Theorem dep3_set_description_spec c p d : no_char LFc d = true -> both_desc p = false ->
+  let p' := dep3_set_description LI p d in
+  decode c CFirstLine (desc_raw p') = Ok (VSome (VStr d)) /\
+  decode c CRestLines (desc_raw p') =
+    Ok (VSome (VStr (match desc_raw p with Some o => match rest_after_first_line o with Some r => r | None => [] end | None => [] end))) /\
+  strip [k_Description; k_Subject] p' = strip [k_Description; k_Subject] p /\
+  both_desc p' = false.
+Proof.
+  intros Hd Hb p'. unfold p', dep3_set_description, desc_raw, both_desc in *. cbn [p_get p_set LI].
+  destruct desc_neq as [N1 N2].
+  destruct (l_get p k_Subject) as [s|] eqn:Es.
+  - destruct (l_get p k_Description) as [x|] eqn:Ed; [discriminate|].
+    rewrite (l_get_set_other p k_Subject _ k_Description N2), Ed, l_get_set_same.
+    destruct (first_rest_replace (Some s) d Hd) as [F1 F2].
+    rewrite decode_first_line, decode_rest_lines, F1, F2. repeat split.
+    apply strip_l_set. right. left. reflexivity.
+  - rewrite l_get_set_same, (l_get_set_other p k_Description _ k_Subject N1), Es.
+    destruct (first_rest_replace (l_get p k_Description) d Hd) as [F1 F2].
+    rewrite decode_first_line, decode_rest_lines, F1, F2. repeat split.
+    + destruct (l_get p k_Description); reflexivity.
+    + apply strip_l_set. left. reflexivity.
+Qed.
+
+(* set_long_description on a header that has a description *)
+Theorem dep3_set_long_description_spec c p l old : desc_raw p = Some old -> both_desc p = false ->
+  let p' := dep3_set_long_description LI false p l in
+  decode c CRestLines (desc_raw p') = Ok (VSome (VStr l)) /\
+  decode c CFirstLine (desc_raw p') = decode c CFirstLine (desc_raw p) /\
+  strip [k_Description; k_Subject] p' = strip [k_Description; k_Subject] p.
+Proof.
+  intros Ho Hb p'. unfold p', dep3_set_long_description, desc_raw, both_desc in *. cbn [p_get p_set LI].
+  destruct desc_neq as [N1 N2].
+  assert (G : forall o, first_line_of (first_line_of o ++ l_lf ++ l) = first_line_of o /\
+                        rest_after_first_line (first_line_of o ++ l_lf ++ l) = Some l).
+  { intros o. assert (Hn : no_char LFc (first_line_of o) = true).
+    { unfold first_line_of. pose proof (split_once_on_spec LFc o) as H. destruct (split_once_on LFc o) as [[a b]|]; [apply H|exact H]. }
+    unfold first_line_of at 1, rest_after_first_line. change (first_line_of o ++ l_lf ++ l) with (first_line_of o ++ LFc :: l).
+    rewrite (split_once_on_first LFc _ l Hn). split; reflexivity. }
+  destruct (l_get p k_Subject) as [s|] eqn:Es.
+  - destruct (l_get p k_Description) as [x|] eqn:Ed; [discriminate|]. inversion Ho; subst old.
+    rewrite (l_get_set_other p k_Subject _ k_Description N2), Ed, l_get_set_same.
+    destruct (G s) as [G1 G2]. rewrite !decode_first_line, decode_rest_lines, G1, G2. repeat split.
+    apply strip_l_set. right. left. reflexivity.
+  - destruct (l_get p k_Description) as [x|] eqn:Ed; [|discriminate]. inversion Ho; subst old.
+    rewrite l_get_set_same. destruct (G x) as [G1 G2]. rewrite !decode_first_line, decode_rest_lines, G1, G2. repeat split.
+    apply strip_l_set. left. reflexivity.
+Qed.
+
+(* the hypothesis "not both fields" is needed: the setters prefer Subject, the getters Description *)
+Lemma dep3_description_both_needed :
+  let p := [(k_Description, [100%N]); (k_Subject, [115%N])] in
+  decode (mk_ctx id_xparse []) CFirstLine (desc_raw (dep3_set_description LI p [110%N])) = Ok (VSome (VStr [100%N])).
+Proof. vm_compute. reflexivity. Qed.
+
+(* ---- DEP-3: author (Author, else From) ---- *)
+Definition author_raw (p : list (str * str)) : option str :=
+  match l_get p k_Author with Some v => Some v | None => l_get p k_From end.
+Theorem dep3_set_author_spec p a :
+  (l_get p k_Author = None \/ l_get p k_From = None) ->
+  let p' := dep3_set_author LI false p a in
+  author_raw p' = Some a /\ strip [k_Author; k_From] p' = strip [k_Author; k_From] p /\
+  count_key k_Author p' + count_key k_From p' = Nat.max 1 (count_key k_Author p + count_key k_From p).
+Proof.
+  intros H p'. unfold p', dep3_set_author, author_raw, p_contains. cbn [p_get p_set LI].
+  assert (N1 : str_eqb k_Author k_From = false) by reflexivity. assert (N2 : str_eqb k_From k_Author = false) by reflexivity.
+  destruct (l_get p k_From) as [f|] eqn:Ef.
+  - destruct H as [H|H]; [|discriminate]. rewrite (l_get_set_other p k_From a k_Author N2), H, l_get_set_same.
+    split; [reflexivity|]. split; [apply strip_l_set; right; left; reflexivity|].
+    rewrite l_set_count. assert (C : count_key k_Author (l_set p k_From a) = count_key k_Author p).
+    { apply count_key_none in H. rewrite H. apply count_key_none. rewrite (l_get_set_other p k_From a k_Author N2). apply count_key_none. exact H. }
+    rewrite C. apply count_key_none in H. rewrite H. reflexivity.
+  - rewrite l_get_set_same. split; [reflexivity|]. split; [apply strip_l_set; left; reflexivity|].
+    rewrite l_set_count. assert (C : count_key k_From (l_set p k_Author a) = 0).
+    { apply count_key_none. rewrite (l_get_set_other p k_Author a k_From N1). exact Ef. }
+    rewrite C. apply count_key_none in Ef. rewrite Ef, !Nat.add_0_r. reflexivity.
+Qed.
+
+(* ---- DEP-3: vendor bugs ---- *)
+Lemma strip_prefix_eq pre s v : (match strip_prefix pre s with Some x => str_eqb x v | None => false end) = str_eqb s (pre ++ v).
+Proof.
+  revert s. induction pre as [|c pre IH]; intros s; [reflexivity|]. destruct s as [|x s']; [reflexivity|].
+  cbn [strip_prefix app]. change (str_eqb (x :: s') (c :: pre ++ v)) with ((x =? c)%N && str_eqb s' (pre ++ v)).
+  destruct (x =? c)%N; [apply IH|reflexivity].
+Qed.
+Theorem dep3_vendor_bugs_get_all p vendor :
+  dep3_vendor_bugs LI p vendor = VList (p_get_all LI p (k_Bug_dash ++ vendor)).
+Proof.
+  unfold dep3_vendor_bugs, p_get_all. cbn [p_items LI]. f_equal. induction p as [|[n x] r IH]; [reflexivity|].
+  cbn [flat_map fst snd]. rewrite IH. f_equal. rewrite <- (strip_prefix_eq k_Bug_dash n vendor).
+  destruct (strip_prefix k_Bug_dash n) as [s|]; [destruct (str_eqb s vendor)|]; reflexivity.
+Qed.
+Lemma get_all_l_set_single p k v : count_key k p <= 1 -> p_get_all LI (l_set p k v) k = [v].
+Proof.
+  intros H. unfold p_get_all. cbn [p_items LI].
+  destruct (l_set_spec p k v) as [(a & x & b & E1 & E2 & E3)|[E1 E2]].
+  - rewrite E3. rewrite E1, count_key_app, count_key_cons_same in H.
+    assert (Ca : count_key k a = 0) by (apply count_key_none; exact E2). assert (Cb : count_key k b = 0) by lia.
+    assert (Z : forall q, count_key k q = 0 -> flat_map (fun kv => if str_eqb (fst kv) k then [snd kv] else []) q = []).
+    { unfold count_key. induction q as [|[n y] q IH]; [reflexivity|]. cbn [filter fst flat_map snd]. destruct (str_eqb n k); [discriminate|]. exact IH. }
+    rewrite flat_map_app. cbn [flat_map fst snd]. rewrite str_eqb_refl, (Z a Ca), (Z b Cb). reflexivity.
+  - rewrite E2, flat_map_app. cbn [flat_map fst snd]. rewrite str_eqb_refl.
+    assert (Z : forall q, l_get q k = None -> flat_map (fun kv => if str_eqb (fst kv) k then [snd kv] else []) q = []).
+    { induction q as [|[n y] q IH]; [reflexivity|]. cbn [l_get flat_map fst snd]. destruct (str_eqb n k); [discriminate|]. exact IH. }
+    rewrite (Z p E1). reflexivity.
+Qed.
+Theorem dep3_set_vendor_bug_spec p vendor bug : count_key (k_Bug_dash ++ vendor) p <= 1 ->
+  dep3_vendor_bugs LI (dep3_set_vendor_bug LI false p vendor bug) vendor = VList [bug] /\
+  l_remove (dep3_set_vendor_bug LI false p vendor bug) (k_Bug_dash ++ vendor) = l_remove p (k_Bug_dash ++ vendor).
+Proof.
+  intros H. unfold dep3_set_vendor_bug. cbn [p_set LI]. rewrite dep3_vendor_bugs_get_all, get_all_l_set_single by exact H.
+  split; [reflexivity|apply l_set_others].
+Qed.
+(* shipped (insert): a second call leaves the first value in front *)
+Lemma dep3_vendor_bug_shipped_refuted :
+  let p := dep3_set_vendor_bug LI true (dep3_set_vendor_bug LI true [] [68%N] [49%N]) [68%N] [50%N] in
+  dep3_vendor_bugs LI p [68%N] = VList [[49%N]; [50%N]].
+Proof. vm_compute. reflexivity. Qed.
+
+(* ---- copyright Header::fix ---- *)
+Lemma fix_format_idem f : fix_format (fix_format f) = fix_format f.
+Proof.
+  assert (Hs : forall g, ends_with_slash g = true -> ends_with_slash (l_https_colon ++ g) = true).
+  { intros g. unfold ends_with_slash. rewrite rev_app_distr. destruct (rev g); [discriminate|]. cbn [app]. trivial. }
+  set (f1 := if ends_with_slash f then f else f ++ [47%N]).
+  assert (E1 : ends_with_slash f1 = true).
+  { unfold f1. destruct (ends_with_slash f) eqn:E; [exact E|]. unfold ends_with_slash. rewrite rev_app_distr. reflexivity. }
+  set (f2 := match strip_prefix l_http_colon f1 with Some rest => l_https_colon ++ rest | None => f1 end).
+  assert (E2 : ends_with_slash f2 = true /\ strip_prefix l_http_colon f2 = None).
+  { unfold f2. destruct (strip_prefix l_http_colon f1) as [rest|] eqn:E.
+    - apply strip_prefix_some in E. split; [|reflexivity]. apply Hs. rewrite E in E1. unfold ends_with_slash in *.
+      rewrite rev_app_distr in E1. destruct (rev rest) as [|y w] eqn:Er; [|exact E1].
+      assert (rest = []) by (rewrite <- (rev_involutive rest), Er; reflexivity). subst rest. cbn in E1. discriminate.
+    - split; [exact E1|exact E]. }
+  destruct E2 as [E2 E3].
+  assert (Ef : fix_format f = if str_eqb f2 l_current_format then l_current_format else f2) by reflexivity.
+  rewrite Ef. destruct (str_eqb f2 l_current_format) eqn:E4.
+  - vm_compute. reflexivity.
+  - unfold fix_format. rewrite E2, E3, E4. reflexivity.
+Qed.
+
+Theorem header_fix_format p f : l_get p k_Format_Specification = None -> l_get p k_Format = Some f ->
+  header_fix LI p = l_set p k_Format (fix_format f) /\
+  l_get (header_fix LI p) k_Format = Some (fix_format f) /\
+  header_fix LI (header_fix LI p) = header_fix LI p.
+Proof.
+  intros H1 H2.
+  assert (E : header_fix LI p = l_set p k_Format (fix_format f)).
+  { unfold header_fix, p_contains. cbn [p_get p_set LI]. rewrite H1, H2. reflexivity. }
+  split; [exact E|]. split; [rewrite E; apply l_get_set_same|].
+  rewrite E. unfold header_fix at 1, p_contains. cbn [p_get p_set LI].
+  rewrite (l_get_set_other p k_Format _ k_Format_Specification eq_refl), H1, l_get_set_same, fix_format_idem.
+  (* setting the same value again *)
+  destruct (l_set_spec p k_Format (fix_format f)) as [(a & x & b & F1 & F2 & F3)|[F1 _]]; [|congruence].
+  rewrite F3. destruct (l_set_spec (a ++ (k_Format, fix_format f) :: b) k_Format (fix_format f)) as [(a' & x' & b' & G1 & G2 & G3)|[G1 _]].
+  - rewrite G3. destruct (first_occ_unique _ _ _ _ _ _ _ G1 F2 G2) as (-> & _ & ->). reflexivity.
+  - rewrite l_get_app, F2 in G1. cbn [l_get] in G1. rewrite str_eqb_refl in G1. discriminate.
+Qed.
+
+(* the old field name is renamed in place *)
+Theorem header_fix_old_name a f b : l_get a k_Format_Specification = None -> l_get a k_Format = None ->
+  l_get b k_Format = None ->
+  header_fix LI (a ++ (k_Format_Specification, f) :: b) = a ++ (k_Format, fix_format f) :: b.
+Proof.
+  intros Ha1 Ha2 Hb. unfold header_fix, p_contains. cbn [p_get p_set p_rename LI].
+  rewrite l_get_app, Ha1. cbn [l_get]. rewrite str_eqb_refl.
+  assert (R : l_rename1 (a ++ (k_Format_Specification, f) :: b) k_Format_Specification k_Format = a ++ (k_Format, f) :: b).
+  { clear Ha2 Hb. induction a as [|[n x] a IH]; [cbn [app l_rename1]; rewrite str_eqb_refl; reflexivity|].
+    cbn [l_get] in Ha1. cbn [app l_rename1]. destruct (str_eqb n k_Format_Specification); [discriminate|]. rewrite (IH Ha1). reflexivity. }
+  rewrite R, l_get_app, Ha2. cbn [l_get]. rewrite str_eqb_refl.
+  destruct (l_set_spec (a ++ (k_Format, f) :: b) k_Format (fix_format f)) as [(a' & x' & b' & G1 & G2 & G3)|[G1 _]].
+  - rewrite G3. destruct (first_occ_unique _ _ _ _ _ _ _ G1 Ha2 G2) as (-> & _ & ->). reflexivity.
+  - rewrite l_get_app, Ha2 in G1. cbn [l_get] in G1. rewrite str_eqb_refl in G1. discriminate.
+Qed.
+
+(* ---- Source::vcs ---- *)
+Definition is_vcs_kind_field (n : str) : bool :=
+  match strip_prefix k_Vcs_dash n with Some _ => negb (str_eqb n k_Vcs_Browser) | None => false end.
+
+Theorem vcs_first_field sh a n v b : forallb (fun kv => negb (is_vcs_kind_field (fst kv))) a = true ->
+  is_vcs_kind_field n = true ->
+  vcs_of_items sh (a ++ (n, v) :: b) =
+  match strip_prefix k_Vcs_dash n with
+  | Some x => match vcs_from_field (if sh then n else x) v with Some val => VSome val | None => VNone end
+  | None => VNone
+  end.
+Proof.
+  intros Ha Hn. induction a as [|[m y] a IH].
+  - cbn [app vcs_of_items]. unfold is_vcs_kind_field in Hn. destruct (strip_prefix k_Vcs_dash n); [|discriminate].
+    apply negb_true_iff in Hn. rewrite Hn. reflexivity.
+  - cbn [forallb fst] in Ha. apply andb_true_iff in Ha. destruct Ha as [Hm Ha]. cbn [app vcs_of_items].
+    apply negb_true_iff in Hm. unfold is_vcs_kind_field in Hm. destruct (strip_prefix k_Vcs_dash m).
+    + apply negb_false_iff in Hm. rewrite Hm. apply IH. exact Ha.
+    + apply IH. exact Ha.
+Qed.
+Theorem vcs_none its : forallb (fun kv => negb (is_vcs_kind_field (fst kv))) its = true -> forall sh, vcs_of_items sh its = VNone.
+Proof.
+  intros H sh. induction its as [|[m y] r IH]; [reflexivity|]. cbn [forallb fst] in H. apply andb_true_iff in H. destruct H as [Hm Hr].
+  cbn [vcs_of_items]. apply negb_true_iff in Hm. unfold is_vcs_kind_field in Hm. destruct (strip_prefix k_Vcs_dash m).
+  - apply negb_false_iff in Hm. rewrite Hm. apply IH. exact Hr.
+  - apply IH. exact Hr.
+Qed.
+
+(* shipped: from_field is given the whole field name, which is never one of its five keywords *)
+Lemma vcs_from_field_full_name n v x : strip_prefix k_Vcs_dash n = Some x -> vcs_from_field n v = None.
+Proof.
+  intros H. apply strip_prefix_some in H. subst n. unfold vcs_from_field.
+  assert (G : forall kw, length kw < 4 -> str_eqb (k_Vcs_dash ++ x) kw = false).
+  { intros kw Hl. destruct (str_eqb (k_Vcs_dash ++ x) kw) eqn:E; [|reflexivity]. apply str_eqb_eq in E.
+    apply (f_equal (@length N)) in E. rewrite app_length in E. cbn in E. cbn in Hl. lia. }
+  rewrite !G by (cbn; lia). reflexivity.
+Qed.
+Theorem vcs_shipped_never its : vcs_of_items true its = VNone.
+Proof.
+  induction its as [|[n v] r IH]; [reflexivity|]. cbn [vcs_of_items]. destruct (strip_prefix k_Vcs_dash n) as [x|] eqn:E; [|exact IH].
+  destruct (str_eqb n k_Vcs_Browser); [exact IH|]. rewrite (vcs_from_field_full_name n v x E). reflexivity.
+Qed.
+
+(* ================================================================== 7. Control::source / binaries *)
+Lemma has_field_items k p : has_field k p = spec_contains (items p) k.
+Proof. unfold has_field. apply contains_key_items. Qed.
+
+Lemma find_index_map {A B} (f : A -> B) (q : B -> bool) l i : find_index (fun x => q (f x)) l i = find_index q (map f l) i.
+Proof. revert i. induction l as [|x r IH]; intros i; [reflexivity|]. cbn [find_index map]. destruct (q (f x)); [reflexivity|apply IH]. Qed.
+Lemma filter_index_map {A B} (f : A -> B) (q : B -> bool) l i : filter_index (fun x => q (f x)) l i = filter_index q (map f l) i.
+Proof. revert i. induction l as [|x r IH]; intros i; [reflexivity|]. cbn [filter_index map]. rewrite IH. reflexivity. Qed.
+
+Theorem control_select_items t :
+  control_source t = find_index (fun its => spec_contains its k_Source) (doc_items t) 0 /\
+  control_binaries t = filter_index (fun its => spec_contains its k_Package) (doc_items t) 0.
+Proof.
+  unfold control_source, control_binaries, doc_items. rewrite <- find_index_map, <- filter_index_map. split.
+  - assert (E : forall l i, find_index (has_field k_Source) l i = find_index (fun x => spec_contains (items x) k_Source) l i).
+    { induction l as [|x r IH]; intros i; [reflexivity|]. cbn [find_index]. rewrite has_field_items, IH. reflexivity. }
+    apply E.
+  - assert (E : forall l i, filter_index (has_field k_Package) l i = filter_index (fun x => spec_contains (items x) k_Package) l i).
+    { induction l as [|x r IH]; intros i; [reflexivity|]. cbn [filter_index]. rewrite has_field_items, IH. reflexivity. }
+    apply E.
+Qed.
+
+Lemma find_index_spec {A} (q : A -> bool) l i :
+  match find_index q l i with
+  | Some n => exists a x b, l = a ++ x :: b /\ n = i + length a /\ q x = true /\ forallb (fun y => negb (q y)) a = true
+  | None => forallb (fun y => negb (q y)) l = true
+  end.
+Proof.
+  revert i. induction l as [|x r IH]; intros i; [reflexivity|]. cbn [find_index]. destruct (q x) eqn:E.
+  - exists [], x, r. repeat split; [cbn; lia|exact E].
+  - specialize (IH (S i)). destruct (find_index q r (S i)) as [n|].
+    + destruct IH as (a & y & b & -> & -> & Hy & Ha). exists (x :: a), y, b. repeat split; [cbn [length]; lia|exact Hy|cbn [forallb]; rewrite E; exact Ha].
+    + cbn [forallb]. rewrite E. exact IH.
+Qed.
+Lemma filter_index_spec {A} (q : A -> bool) l i n :
+  In n (filter_index q l i) <-> exists x, nth_error l (n - i) = Some x /\ i <= n /\ q x = true.
+Proof.
+  revert i. induction l as [|x r IH]; intros i.
+  - cbn. split; [tauto|]. intros (x & H & _). destruct (n - i); discriminate.
+  - cbn [filter_index]. rewrite in_app_iff, IH. split.
+    + intros [H|(y & H1 & H2 & H3)].
+      * destruct (q x) eqn:E; [|contradiction]. destruct H as [<-|[]]. exists x. rewrite Nat.sub_diag. repeat split; [lia|exact E].
+      * exists y. replace (n - i) with (S (n - S i)) by lia. repeat split; [exact H1|lia|exact H3].
+    + intros (y & H1 & H2 & H3). destruct (Nat.eq_dec n i) as [->|Hne].
+      * rewrite Nat.sub_diag in H1. cbn in H1. inversion H1; subst. left. rewrite H3. left. reflexivity.
+      * right. exists y. replace (n - i) with (S (n - S i)) in H1 by lia. repeat split; [exact H1|lia|exact H3].
+Qed.
